@@ -10,6 +10,17 @@ Every run:
      the call is aborted before the selected rule runs); classes of the intercepted arguments,
      truth values of the conditions and the outcome (signature | ambiguous | not found) must
      equal what the Lean model printed for that tuple (lean --run DriverC04.lean);
+ (c') nested resolutions: the SAME calls once more, run to completion (rule bodies execute, plum's
+     method cache off, iteration budgets of Algorithm arguments cut down) with `Resolver.resolve`
+     wrapped to record EVERY resolution of the call, i.e. also those a selected rule makes itself
+     (`inv` on the factors of a Kronecker, `inv(A, Auto)` re-dispatching with `LU()`, `dot`/`add`/
+     `get_annotations` on operators built inside a body ...).  Every observed (function, argument
+     classes, condition bits) of a function of the registry must be a tuple of that function's
+     lattice — so the C04_f theorems cover it — and the real outcome must equal the model's answer
+     for it; otherwise VIOLATION with the outer call and the nested tuple.  Runtime classes that are
+     other parametrisations of a @parametric kind (`Product[Dense, Diagonal]`) are identified with
+     the kind's representative after checking that they have the same superclasses among all
+     classes that can be hints.  Exceptions of rule bodies are counted, not judged;
  (d) every tuple on which the REAL resolver fails is replayed as a plain public call; a call that
      raises AmbiguousLookupError / NotFoundLookupError is a VIOLATION (or KNOWN-FINDING when
      known_findings.json lists its clause); a broken gate / correspondence without such a call is
@@ -23,11 +34,12 @@ import json
 import os
 import sys
 import time
+from typing import Any as typing_Any
 
 import common
 
 MODULE = "ColaVerif.Properties.C04"
-PARTS = [f"ColaVerif.Properties.C04.Part{p}" for p in "ABCDEFG"]
+PARTS = [f"ColaVerif.Properties.C04.Part{p}" for p in "ABCDEFGH"]
 TRANSLATOR = os.path.join(common.ROOT, "harness", "translators", "dump_rules.py")
 LATTICE_JSON = os.path.join(common.WORK, "c04", "lattice.json")
 ANNOTATIONS = ["SelfAdjoint", "PSD", "Stiefel", "Unitary"]
@@ -35,6 +47,13 @@ ANNOTATIONS = ["SelfAdjoint", "PSD", "Stiefel", "Unitary"]
 
 class _Stop(BaseException):
     """aborts the public call right after the first resolution"""
+
+
+class _NoCache(dict):
+    """a method cache that never stores: every call goes through Resolver.resolve"""
+
+    def __setitem__(self, k, v):
+        pass
 
 
 # ------------------------------------------------------------------------------------------
@@ -83,6 +102,8 @@ class Real:
             f._resolve_pending_registrations()
             self.by_resolver[id(f._resolver)] = name
         self.bearable = plum._is_bearable
+        self.canon = {}   # runtime class outside the table -> (representative id | None, reason)
+        self.hint_ids()
 
     def clear_caches(self):
         for fn in self.m.functions.values():
@@ -126,6 +147,125 @@ class Real:
             rec["fn"] = self.by_resolver.get(id(rec["resolver"]), "?")
         return rec
 
+    def all_functions(self):
+        """id(resolver) -> name for EVERY plum Function alive in the process (also those that are not in
+        cola's dispatcher registry, e.g. plum's own parametric helpers), for naming nested resolutions"""
+        import gc
+        out = {}
+        for o in gc.get_objects():
+            try:
+                if isinstance(o, self.plum.Function):
+                    out[id(o._resolver)] = getattr(o, "__name__", None) or getattr(o, "_f", None) and o._f.__name__ or "?"
+            except Exception:  # noqa: BLE001  (objects with broken __class__ / weak proxies)
+                continue
+        return out
+
+    def record_all(self, thunk, other_names):
+        """Run thunk() TO COMPLETION (rule bodies execute, nothing is aborted) with plum's
+        `Resolver.resolve` wrapped so that EVERY resolution of the call — the first one and all nested
+        ones made by the selected rules — is recorded.  plum's per-function cache is switched off for
+        the duration (a cache hit would skip the resolver and hide a resolution).
+        -> (records, exception of the body or None); a record is dict(fn | other, key | key_err, out,
+        classes)."""
+        recs = []
+        Resolver = self.Resolver
+        orig = Resolver.resolve
+        plum = self.plum
+
+        def patched(rs, target):
+            r = {}
+            name = self.by_resolver.get(id(rs))
+            if name is None:
+                r["other"] = other_names.get(id(rs), "?")
+            elif not isinstance(target, tuple):
+                r["other"] = name + " (resolved by signature, not by arguments)"
+            else:
+                r["fn"] = name
+                r["classes"] = [f"{type(v).__module__}.{type(v).__qualname__}" for v in target]
+                # class ids and condition bits NOW, before the selected rule can touch the arguments
+                try:
+                    r["key"], r["key_err"] = self.key_of({"fn": name, "args": target})
+                except Exception as ex:  # noqa: BLE001  (a condition that raises on these arguments)
+                    r["key"], r["key_err"] = None, f"condition raised {type(ex).__name__}: {str(ex)[:120]}"
+            recs.append(r)
+            try:
+                sig = orig(rs, target)
+            except plum.AmbiguousLookupError as ex:
+                r["out"] = ("A", str(ex)[:600])
+                raise
+            except plum.NotFoundLookupError as ex:
+                r["out"] = ("N", str(ex)[:600])
+                raise
+            r["out"] = ("U", next(i for i, s in enumerate(rs.signatures) if s is sig))
+            return sig
+
+        saved = {}
+        for name, fn in self.m.functions.items():
+            f = fn["function"]
+            saved[name] = f._cache
+            f._cache = _NoCache()
+        Resolver.resolve = patched
+        err = None
+        try:
+            thunk()
+        except Exception as ex:  # noqa: BLE001  (raised by a rule body: not C04's business, but counted)
+            err = ex
+        finally:
+            Resolver.resolve = orig
+            for name, fn in self.m.functions.items():
+                fn["function"]._cache = saved[name]
+        return recs, err
+
+    def class_id(self, c):
+        """id of a runtime class in the class table.  A runtime class that is ANOTHER parametrisation of a
+        @parametric kind than the representative of the table (e.g. `Product[Dense, Diagonal]` built inside a
+        rule body; the table has `Product[Dense, Dense]`) is mapped to the representative, AFTER checking the
+        assumption that makes this exact: it has the same superclasses as the representative among all classes
+        that can occur as hints (every class of the table that is not itself a concrete parametrisation; no
+        registered hint or clause pattern is one — checked once in `hint_ids`).  The model's `sigMatch` reads
+        an argument only through those bits, so the model's answer for the representative IS its answer for
+        this class.  -> (id, None) | (None, reason)"""
+        m = self.m
+        if c in m.cid:
+            return m.cid[c], None
+        if c not in self.canon:
+            self.canon[c] = self._canonicalise(c)
+        return self.canon[c]
+
+    def hint_ids(self):
+        m = self.m
+        ids = set()
+        for fn in m.functions.values():
+            for s in fn["sigs"]:
+                for h in s["tys"] + ([s["va"]] if s["va"] is not None else []):
+                    ids.update(h)
+            for cl in fn["clauses"]:
+                for p in cl["pats"]:
+                    ids.update(p)
+        bad = [m.class_names[i] for i in ids if getattr(m.classes[i], "_concrete", False)]
+        if bad:
+            raise RuntimeError(f"a registered hint is a concrete parametrisation {bad}: parametrisations of a kind can no longer be identified")
+        return ids
+
+    def _canonicalise(self, c):
+        m = self.m
+        name = f"{c.__module__}.{c.__qualname__}"
+        if not (getattr(c, "_parametric", False) and getattr(c, "_concrete", False)):
+            return None, f"argument class {name} outside the class table"
+        wrapper = next((b for b in c.__mro__[1:] if getattr(b, "_parametric", False) and not getattr(b, "_concrete", False)), None)
+        rep = next((k for k in m.kinds if k["hint"] is wrapper), None)
+        if rep is None:
+            return None, f"argument class {name}: no kind of the class table is its @parametric wrapper"
+        rid = m.cid[rep["cls"]]
+        for j, b in enumerate(m.classes):
+            if getattr(b, "_concrete", False):
+                continue  # never a hint (hint_ids)
+            sub = True if b is typing_Any else issubclass(c, b)
+            if sub != m.sub[rid][j]:
+                return None, (f"argument class {name} and the representative {m.class_names[rid]} of its kind differ in "
+                              f"issubclass(·, {m.class_names[j]})")
+        return rid, None
+
     def key_of(self, rec):
         """(class ids, condition bits) of the intercepted arguments"""
         m = self.m
@@ -133,10 +273,10 @@ class Real:
         args = rec["args"]
         ids = []
         for v in args:
-            c = type(v)
-            if c not in m.cid:
-                return None, f"argument class {c} outside the class table"
-            ids.append(m.cid[c])
+            i, err = self.class_id(type(v))
+            if err:
+                return None, err
+            ids.append(i)
         bits = 0
         for c in fn["conds"]:
             s = fn["live"][c["sig"]]
@@ -184,15 +324,11 @@ def describe(m, fn, ids):
 
 
 # ------------------------------------------------------------------------------------------
-def correspondence(ctx, D, m, lean, stats):
-    """(c): every public form item × steering variants"""
-    R = Real(D, m)
+def call_sites(D, m):
+    """every public form item × steering variant: yields (form, item, lattice tuples of the item, args, variant tag,
+    forced).  Shared by the first-resolution correspondence (c) and the nested-resolution stream (c')."""
     kinds = {k["name"]: k for k in m.kinds}
     var_cache = {}
-    mismatches, failures, errors = [], [], []
-    covered = {name: set() for name in m.functions}
-    samples = []
-    forced_only = {}
     for fo in m.forms:
         fn = m.functions[fo["fn"]]
         for it in fo["items"]:
@@ -208,51 +344,240 @@ def correspondence(ctx, D, m, lean, stats):
                 else:
                     vsets.append([("", v, False)])
             for combo in itertools.product(*vsets):
-                args = [c[1] for c in combo]
-                tag = " ".join(c[0] for c in combo if c[0])
-                forced = any(c[2] for c in combo)
-                rec = R.intercept(lambda: fo["call"](*args))
-                stats["calls"] += 1
-                where = {"form": fo["name"], "labels": it["labels"], "variant": tag}
-                if "error" in rec and "out" not in rec:
-                    errors.append(dict(where, error=rec["error"]))
-                    continue
-                if rec["fn"] != fo["fn"]:
-                    mismatches.append(dict(where, why=f"first resolution was {rec['fn']}, expected {fo['fn']}"))
-                    continue
-                key, err = R.key_of(rec)
-                if err:
-                    mismatches.append(dict(where, why=err))
-                    continue
-                if key not in need:
-                    mismatches.append(dict(where, why=f"intercepted tuple {key} is not among the lattice tuples {sorted(need)} of this call form"))
-                    continue
-                lo = lean[fo["fn"]].get(key)
-                if lo is None:
-                    mismatches.append(dict(where, why=f"tuple {key} missing from the Lean lattice"))
-                    continue
-                (lout, nmatch, excl) = lo
-                real = rec["out"]
-                real_c = (real[0], real[1] if real[0] == "U" else None)
-                stats["evaluations"] += 1
-                if nmatch >= 2:
-                    stats["nontrivial"].add((fo["fn"], key))
-                if not forced:
-                    stats["natural"].add((fo["fn"], key))
-                covered[fo["fn"]].add(key)
-                if real_c != lout:
-                    mismatches.append(dict(where, why=f"real resolver {real_c} vs Lean model {lout}", tuple=[list(key[0]), key[1]]))
-                if real[0] != "U":
-                    failures.append(dict(where, fn=fo["fn"], key=key, outcome=real[0], message=real[1][:600], forced=forced))
-                elif len(samples) < 400 and nmatch >= 2 and stats["calls"] % 37 == 0:
-                    samples.append({"call": fo["name"], "classes": describe(m, fn, key[0]), "conds": key[1],
-                                    "selected": fn["sigs"][real[1]]["impl"], "signature": fn["sigs"][real[1]]["repr"]})
+                yield (fo, it, need, [c[1] for c in combo], " ".join(c[0] for c in combo if c[0]),
+                       any(c[2] for c in combo))
+
+
+def correspondence(ctx, D, m, lean, stats):
+    """(c): every public form item × steering variants"""
+    R = Real(D, m)
+    mismatches, failures, errors = [], [], []
+    covered = {name: set() for name in m.functions}
+    samples = []
+    for fo, it, need, args, tag, forced in call_sites(D, m):
+        fn = m.functions[fo["fn"]]
+        rec = R.intercept(lambda: fo["call"](*args))
+        stats["calls"] += 1
+        where = {"form": fo["name"], "labels": it["labels"], "variant": tag}
+        if "error" in rec and "out" not in rec:
+            errors.append(dict(where, error=rec["error"]))
+            continue
+        if rec["fn"] != fo["fn"]:
+            mismatches.append(dict(where, why=f"first resolution was {rec['fn']}, expected {fo['fn']}"))
+            continue
+        key, err = R.key_of(rec)
+        if err:
+            mismatches.append(dict(where, why=err))
+            continue
+        if key not in need:
+            mismatches.append(dict(where, why=f"intercepted tuple {key} is not among the lattice tuples {sorted(need)} of this call form"))
+            continue
+        lo = lean[fo["fn"]].get(key)
+        if lo is None:
+            mismatches.append(dict(where, why=f"tuple {key} missing from the Lean lattice"))
+            continue
+        (lout, nmatch, excl) = lo
+        real = rec["out"]
+        real_c = (real[0], real[1] if real[0] == "U" else None)
+        stats["evaluations"] += 1
+        if nmatch >= 2:
+            stats["nontrivial"].add((fo["fn"], key))
+        if not forced:
+            stats["natural"].add((fo["fn"], key))
+        covered[fo["fn"]].add(key)
+        if real_c != lout:
+            mismatches.append(dict(where, why=f"real resolver {real_c} vs Lean model {lout}", tuple=[list(key[0]), key[1]]))
+        if real[0] != "U":
+            failures.append(dict(where, fn=fo["fn"], key=key, outcome=real[0], message=real[1][:600], forced=forced))
+        elif len(samples) < 400 and nmatch >= 2 and stats["calls"] % 37 == 0:
+            samples.append({"call": fo["name"], "classes": describe(m, fn, key[0]), "conds": key[1],
+                            "selected": fn["sigs"][real[1]]["impl"], "signature": fn["sigs"][real[1]]["repr"]})
     uncovered = []
     for name, fn in m.functions.items():
         for t in fn["tuples"]:
             if t not in covered[name]:
                 uncovered.append({"fn": name, "tuple": [list(t[0]), t[1]], "classes": describe(m, fn, t[0])})
     return mismatches, failures, errors, uncovered, samples
+
+
+# ------------------------------------------------------------------------------------------
+# (c') nested resolutions: the same calls run to completion, every resolution recorded
+# ------------------------------------------------------------------------------------------
+CHEAP_FIELDS = (("max_iters", 4), ("max_iter", 4), ("bs", 3))
+
+
+def cheap(a):
+    """An Algorithm argument with its iteration budget cut down (same class, so the same dispatch tuples; rule
+    selection never looks at these fields): with the defaults (Hutch: 10000 x 100 probes through a 1000-step
+    Arnoldi) a handful of bodies would take minutes on 3x3 operators."""
+    import dataclasses
+    from cola.linalg.algorithm_base import Algorithm
+    if isinstance(a, Algorithm) and dataclasses.is_dataclass(a):
+        ch = {f.name: min(getattr(a, f.name), cap) for f in dataclasses.fields(a) for nm, cap in CHEAP_FIELDS
+              if f.name == nm and isinstance(getattr(a, f.name), int)}
+        if ch:
+            return dataclasses.replace(a, **ch)
+    return a
+
+
+_NS = {}
+
+
+def _nested_worker(w):
+    """calls number w, w+W, w+2W, ... of `call_sites`, each run to completion; -> aggregated observations"""
+    import importlib.util
+    import warnings
+    warnings.simplefilter("ignore")
+    for lib in ("jax", "torch"):
+        # cola.backends.get_library_fns tries `import jax` / `import torch` on every operator construction; a
+        # failing import searches sys.path each time (a third of this stream's time).  Same ImportError, no search.
+        if lib not in sys.modules and importlib.util.find_spec(lib) is None:
+            sys.modules[lib] = None
+    D, m, W, only = _NS["D"], _NS["m"], _NS["W"], _NS.get("only")
+    R = Real(D, m)
+    other = R.all_functions()
+    obs, unkeyed = {}, {}
+    outside, errs, err_samples = {}, {}, {}
+    calls = res = nested = 0
+    t_start, c_start = time.time(), time.process_time()
+    for idx, (fo, it, _need, args, tag, _forced) in enumerate(call_sites(D, m)):
+        if idx % W != w or (only is not None and idx not in only):
+            continue
+        args = [cheap(a) for a in args]
+        recs, err = R.record_all(lambda: fo["call"](*args), other)
+        calls += 1
+        res += len(recs)
+        outer = (idx, fo["name"], it["labels"], tag)
+        if err is not None:
+            en = type(err).__name__
+            errs[en] = errs.get(en, 0) + 1
+            err_samples.setdefault(en, f"{fo['name']} {it['labels']} {tag}: {str(err)[:160]}")
+        for i, r in enumerate(recs):
+            if "other" in r:
+                outside[r["other"]] = outside.get(r["other"], 0) + 1
+                continue
+            nested += i > 0
+            out = (r["out"][0], r["out"][1] if r["out"][0] == "U" else None) if "out" in r else ("?", None)
+            if r["key"] is None:
+                e = unkeyed.setdefault((r["fn"], tuple(r["classes"]), r["key_err"]),
+                                       {"n": 0, "nested": 0, "outer": outer, "outs": set(), "pos": i})
+            else:
+                e = obs.setdefault((r["fn"], r["key"]), {"n": 0, "nested": 0, "outer": outer, "outs": set(), "pos": i,
+                                                         "classes": r["classes"], "msg": None})
+            e["n"] += 1
+            e["nested"] += i > 0
+            e["outs"].add(out)
+            if out[0] in "AN" and e.get("msg") is None:
+                e["msg"] = r["out"][1]
+    changed = [name for name, fn in m.functions.items()
+               if len(fn["function"]._resolver.signatures) != len(fn["live"])
+               or any(a is not b for a, b in zip(fn["function"]._resolver.signatures, fn["live"]))]
+    canon = {f"{c.__module__}.{c.__qualname__}": (m.class_names[v[0]] if v[0] is not None else None) for c, v in R.canon.items()}
+    return {"obs": obs, "unkeyed": unkeyed, "outside": outside, "errs": errs, "err_samples": err_samples,
+            "calls": calls, "res": res, "nested": nested, "registry_changed": changed, "canon": canon,
+            "wall": round(time.time() - t_start, 1), "cpu": round(time.process_time() - c_start, 1)}
+
+
+def nested_stream(D, m, only=None):
+    """(c'): every call of the correspondence once more, UNABORTED (the selected rule bodies run), with every
+    resolution recorded.  Forked workers (the instances are shared copy-on-write; whatever a body does to them
+    stays in its worker).  -> merged observations"""
+    import multiprocessing
+    W = 1 if only is not None else max(1, min(16, os.cpu_count() or 1))
+    _NS.update(D=D, m=m, W=W, only=only)
+    if W == 1:
+        parts = [_nested_worker(0)]
+    else:
+        with multiprocessing.get_context("fork").Pool(W) as pool:
+            parts = pool.map(_nested_worker, range(W), chunksize=1)
+    tot = {"obs": {}, "unkeyed": {}, "outside": {}, "errs": {}, "err_samples": {}, "calls": 0, "res": 0, "nested": 0,
+           "registry_changed": set(), "canon": {}, "workers": W}
+    for p in parts:
+        for k in ("calls", "res", "nested"):
+            tot[k] += p[k]
+        for k in ("outside", "errs"):
+            for a, b in p[k].items():
+                tot[k][a] = tot[k].get(a, 0) + b
+        for a, b in p["err_samples"].items():
+            tot["err_samples"].setdefault(a, b)
+        tot.setdefault("worker_wall_cpu", []).append((p["wall"], p["cpu"]))
+        tot["registry_changed"].update(p["registry_changed"])
+        tot["canon"].update(p["canon"])
+        for k in ("obs", "unkeyed"):
+            for key, e in p[k].items():
+                t = tot[k].get(key)
+                if t is None:
+                    tot[k][key] = e
+                else:
+                    t["n"] += e["n"]
+                    t["nested"] += e["nested"]
+                    t["outs"] |= e["outs"]
+                    if e["outer"][0] < t["outer"][0]:   # deterministic: the first call that shows it
+                        t["outer"], t["pos"] = e["outer"], e["pos"]
+                        if "classes" in e:
+                            t["classes"] = e["classes"]
+                    if t.get("msg") is None:
+                        t["msg"] = e.get("msg")
+    return tot
+
+
+def judge_nested(m, lean, tot):
+    """-> (list of findings, summary for the evidence).  A finding is a (function, argument tuple) that reached
+    plum's resolver during a public call of the lattice and
+      * is not a tuple of the function's lattice (the lattice under-approximates what reaches the resolver), or
+      * has an argument class outside the class table, or
+      * is resolved by the real resolver differently from the Lean model's answer for that tuple."""
+    findings = []
+    in_lat = 0
+    for (fname, key), e in sorted(tot["obs"].items(), key=lambda kv: kv[1]["outer"][0]):
+        lo = lean.get(fname, {}).get(key)
+        base = {"form": e["outer"][1], "labels": e["outer"][2], "variant": e["outer"][3],
+                "nested": {"fn": fname, "tuple": [list(key[0]), key[1]], "classes": e["classes"], "position_in_call": e["pos"],
+                           "real_outcomes": sorted(f"{o[0]} {o[1]}" if o[0] == "U" else o[0] for o in e["outs"]),
+                           "times_observed": e["n"]}}
+        if lo is None:
+            findings.append(dict(base, kind="not-in-lattice", lookup_error=e.get("msg"),
+                                 what=(f"during `{e['outer'][1]}` on {e['outer'][2]} {e['outer'][3]} the dispatched function `{fname}` is resolved on "
+                                       f"({', '.join(c.split('.')[-1] for c in e['classes'])}; condition bits {key[1]}), which is not a tuple of the "
+                                       f"lattice of `{fname}`: the C04 theorems say nothing about it")))
+            continue
+        in_lat += 1
+        if e["outs"] != {lo[0]}:
+            findings.append(dict(base, kind="real-vs-model", model=f"{lo[0][0]} {lo[0][1]}", lookup_error=e.get("msg"),
+                                 what=f"nested resolution of `{fname}`: the real resolver answers {sorted(map(str, e['outs']))}, the Lean model {lo[0]}"))
+    for (fname, classes, err), e in sorted(tot["unkeyed"].items(), key=lambda kv: kv[1]["outer"][0]):
+        findings.append({"form": e["outer"][1], "labels": e["outer"][2], "variant": e["outer"][3], "kind": "class-outside-table",
+                         "nested": {"fn": fname, "tuple": None, "classes": list(classes), "position_in_call": e["pos"],
+                                    "real_outcomes": sorted(f"{o[0]} {o[1]}" if o[0] == "U" else o[0] for o in e["outs"]),
+                                    "times_observed": e["n"]},
+                         "what": f"during `{e['outer'][1]}` on {e['outer'][2]} {e['outer'][3]} `{fname}` is resolved on ({', '.join(c.split('.')[-1] for c in classes)}): {err}"})
+    nested_keys = {k for k, e in tot["obs"].items() if e["nested"]}
+    summary = {
+        "calls_run_to_completion": tot["calls"],
+        "resolutions_observed": tot["res"],
+        "nested_resolutions_observed": tot["nested"],
+        "distinct_tuples_observed": len(tot["obs"]) + len(tot["unkeyed"]),
+        "distinct_nested_tuples": len(nested_keys) + sum(1 for e in tot["unkeyed"].values() if e["nested"]),
+        "distinct_nested_tuples_in_lattice": sum(1 for k in nested_keys if k[1] in lean.get(k[0], {})),
+        "nested_by_function": {f: sum(1 for k in nested_keys if k[0] == f) for f in sorted({k[0] for k in nested_keys})},
+        "not_in_lattice": [f["nested"] | {"outer": [f["form"], f["labels"], f["variant"]], "kind": f["kind"]}
+                           for f in findings if f["kind"] != "real-vs-model"][:50],
+        "real_vs_model_mismatches": sum(1 for f in findings if f["kind"] == "real-vs-model"),
+        "nested_outside_registry": dict(sorted(tot["outside"].items())),
+        "other_parametrisations_identified_with_representative": len([v for v in tot["canon"].values() if v]),
+        "other_parametrisations_sample": dict(sorted((k, v) for k, v in tot["canon"].items() if v)[:8]),
+        "body_exceptions": dict(sorted(tot["errs"].items(), key=lambda kv: -kv[1])),
+        "body_exception_samples": tot["err_samples"],
+        "workers": tot["workers"],
+    }
+    return findings, summary
+
+
+def report_nested(ctx, findings, cap=6):
+    """one VIOLATION per distinct (function, nested class tuple), at most `cap` (the evidence has the full count)"""
+    for f in findings[:cap]:
+        common.violation(ctx, dict(f, findings_of_this_kind=len(findings)))
+    return min(len(findings), cap)
 
 
 def real_call(D, m, form_name, labels, variant):
@@ -345,6 +670,11 @@ def run(ctx):
     D = load_translator()
     m = D.load()
     js = json.load(open(LATTICE_JSON))
+    active = {n: [c["name"] for c in fn["clauses"]] for n, fn in m.functions.items() if fn["clauses"]}
+    if gate_err is not None and active:
+        broken[-1].update(hint=("a clause of CLAUSES (dump_rules.py) is ACTIVE again, so `clauses_f` is not `[]` and "
+                                "C04_no_recorded_exception fails by design: the failing calls are reported below; recording them as "
+                                "an exception needs a deliberate restatement of that theorem"), active_clauses=active)
     if sorted(js["functions"]) != sorted(m.functions):
         raise RuntimeError("/repo changed during the check (set of dispatched functions); re-run")
     for name, fn in m.functions.items():
@@ -355,7 +685,17 @@ def run(ctx):
             raise RuntimeError(f"lattice of {name}: translator run, in-process model and Lean driver differ")
     if ctx.replay:
         rp = json.load(open(ctx.replay))
-        if "form" in rp:
+        if "nested" in rp and "form" in rp:
+            # the outer call once more, run to completion with every resolution recorded
+            only = {i for i, (fo, it, _n, _a, tag, _f) in enumerate(call_sites(D, m))
+                    if fo["name"] == rp["form"] and it["labels"] == rp["labels"] and tag == rp.get("variant", "")}
+            findings, _ = judge_nested(m, lean, nested_stream(D, m, only=only))
+            same = [f for f in findings if f["nested"]["fn"] == rp["nested"]["fn"] and f["nested"]["classes"] == rp["nested"]["classes"]]
+            print(json.dumps({"replayed": f"{rp['form']} on {rp['labels']} {rp.get('variant', '')} (run to completion, all resolutions recorded)",
+                              "nested_findings_now": len(findings), "the_recorded_one_again": bool(same)}))
+            for f in same[:1]:
+                common.violation(ctx, dict(f, replay_of=ctx.replay))
+        elif "form" in rp:
             text, ex = real_call(D, m, rp["form"], rp["labels"], rp.get("variant", ""))
             print(json.dumps({"replayed": text, "raised": None if ex is None else f"{type(ex).__name__}: {str(ex)[:300]}"}))
             import plum
@@ -367,6 +707,15 @@ def run(ctx):
     stats = {"calls": 0, "evaluations": 0, "nontrivial": set(), "natural": set()}
     mismatches, failures, errors, uncovered, samples = correspondence(ctx, D, m, lean, stats)
     t_corr = time.time() - t0 - t_translate - t_gate
+    # (c') the same calls run to completion: every nested resolution must be a lattice tuple, resolved as the model says
+    tot = nested_stream(D, m)
+    nfind, nsummary = judge_nested(m, lean, tot)
+    t_nested = time.time() - t0 - t_translate - t_gate - t_corr
+    if tot["calls"] != stats["calls"]:
+        raise RuntimeError(f"nested stream ran {tot['calls']} calls, the correspondence {stats['calls']}")
+    if tot["registry_changed"]:
+        broken.append({"stage": "running the rule bodies changed the registry (a body registers rules: the generated table was not the full one)",
+                       "functions": sorted(tot["registry_changed"])})
     if mismatches:
         broken.append({"stage": "correspondence", "count": len(mismatches), "first": mismatches[:10]})
     if errors:
@@ -405,6 +754,7 @@ def run(ctx):
             ent["payload"]["failing_calls_in_class"] = ent["count"]
             common.violation(ctx, ent["payload"])
             reported += 1
+    reported += report_nested(ctx, nfind)
     unconfirmed = [c for c, e in seen.items() if not e["confirmed"]]
     if unconfirmed:
         broken.append({"stage": "real resolver fails inside interception but the plain call does not raise a lookup error", "clauses": unconfirmed})
@@ -432,7 +782,9 @@ def run(ctx):
                  "`annotations` only where the kind fixes them itself) and a Product with non-square factors.  Each call is run on "
                  "real instances with plum's Resolver.resolve intercepted and compared with the Lean model's answer for that tuple.  "
                  "distinct = lattice tuples (function, argument classes, condition bits); non-trivial = at least two registered "
-                 "signatures match the tuple (measured by the Lean model)"),
+                 "signatures match the tuple (measured by the Lean model).  Second stream (`nested_resolutions`): the same calls "
+                 "run to completion with EVERY resolution recorded (nested dispatch inside the selected rules included); each "
+                 "observed tuple must be a lattice tuple and be resolved as the model says"),
         "lattice_sizes": lat,
         "public_form_items": forms_n,
         "public_calls_executed": stats["calls"],
@@ -449,7 +801,9 @@ def run(ctx):
         "uncovered": len(uncovered),
         "samples": samples[:12],
         "never_selected_on_lattice": never,
-        "timing_s": {"translator": round(t_translate, 1), "lean_gate": round(t_gate, 1), "correspondence": round(t_corr, 1)},
+        "nested_resolutions": nsummary,
+        "timing_s": {"translator": round(t_translate, 1), "lean_gate": round(t_gate, 1), "correspondence": round(t_corr, 1),
+                     "nested_stream": round(t_nested, 1)},
         "translator": tsum,
         "trusted_base_extra": [
             "harness/translators/dump_rules.py: reflection of plum's registry into RuleTable.lean, and the lattice tables FORMS / ALGS / DOMAINS (the statement of which calls the documentation admits)",
@@ -462,11 +816,17 @@ def run(ctx):
         "Operator kinds that cannot be constructed on the NumPy backend (Jacobian, Hessian, ConvolveND, Kernel, FFT, AdaNysPrecond) are represented by stub instances of the real class; rule selection only inspects the class, `annotations` and, for Product, the factor shapes",
         "one representative parametrisation per @parametric kind (e.g. Product[Dense, Dense]): no registered hint is a parametrised class, so all parametrisations of a kind have the same superclasses among the hints",
         "registration order is the one produced by `import cola` followed by the remaining modules in sorted order (the candidate loop is order dependent)",
-        "errors raised by the selected rule are outside C04: calls are aborted after rule selection",
+        "errors raised by the selected rule are outside C04: in stream (c) calls are aborted after rule selection; in stream (c') the bodies run and their exceptions are counted by class (`nested_resolutions.body_exceptions`), the resolutions recorded before the exception are still judged",
+        "stream (c') observes the nested dispatch of the bodies AS EXECUTED on the 3x3 instances of the lattice with reduced iteration budgets (max_iters<=4, bs<=3) and plum's method cache switched off; branches of a body that these inputs do not take (size thresholds of Auto, convergence-dependent paths) are not observed",
+        "a runtime class that is another parametrisation of a @parametric kind is identified with the representative of the class table only after checking equal superclasses among all non-parametrised classes of the table (no registered hint is a parametrised class: checked)",
     ])
     if gate_err is not None:
         restore_committed_table()
     print(json.dumps({"tuples": cov["distinct"], "evaluations": cov["evaluations"], "distinct_nontrivial": cov["distinct_nontrivial"],
                       "calls": stats["calls"], "mismatches": len(mismatches), "real_failures": len(failures),
-                      "uncovered": len(uncovered), "errors": len(errors), "gate": (gate or {}).get("obligations"),
+                      "uncovered": len(uncovered), "errors": len(errors),
+                      "nested": {k: nsummary[k] for k in ("resolutions_observed", "nested_resolutions_observed", "distinct_nested_tuples",
+                                                           "distinct_nested_tuples_in_lattice", "real_vs_model_mismatches")} |
+                                {"not_in_lattice": len([f for f in nfind if f["kind"] != "real-vs-model"])},
+                      "gate": (gate or {}).get("obligations"),
                       "gate_broken": gate_err is not None, "timing_s": cov["timing_s"]}))
